@@ -28,6 +28,7 @@ import (
 	"testing"
 	"time"
 
+	"github.com/duo-labs/webauthn/webauthn"
 	"github.com/tstranex/u2f"
 	"pgregory.net/rapid"
 )
@@ -56,6 +57,8 @@ var c16Kinds = []c16Req{
 	{"u2f-manage-admin", "Disable"}, {"u2f-manage-admin", "Delete"}, {"totp-manage-admin", "Disable"},
 	// the other user proves her own factors at the same time
 	{"totp-auth", "bob"}, {"bootstrap-auth", "wrong"},
+	// wanda: only a webauthn-registered key, in a deployment with self-service bootstrap OTPs
+	{"wa-manage", "Disable"}, {"wa-manage", "Delete"}, {"wa-manage", "Update"}, {"login", "wanda"}, {"u2f-sign-response", "wanda"},
 }
 
 type c16World struct {
@@ -68,7 +71,12 @@ type c16World struct {
 	oauth     *vFakeOAuth2
 	oaCookie  string
 	oaState   string
+	waAssert  []byte // wanda's assertion (webauthn-registered key) for her pending U2F challenge
 }
+
+type c16Mailer struct{}
+
+func (c16Mailer) SendMail(from string, to []string, msg []byte) error { return nil }
 
 const c16User = "alice"
 
@@ -99,6 +107,23 @@ func c16NewWorld(shim bool) *c16World {
 	w.vSetU2F("bob", vNewSoftU2F("c16-bob"), 100)
 	w.vSetTOTP("bob", vTOTPSecretBob)
 	st.SaveUserProfile("newbie", &userProfile{})
+	// wanda owns nothing but a key registered through webauthn; the deployment
+	// mails a bootstrap OTP to users without second factor when they log in
+	w.pw.users["wanda"] = "wanda-pw"
+	waTok := vNewSoftU2F("c16-wanda-wa")
+	if wp, _, _, err := st.LoadUserProfile("wanda"); err == nil {
+		wp.WebauthnData = map[int64]*webauthAuthData{300: {Enabled: true, Name: "wa", Credential: webauthn.Credential{ID: waTok.keyHandle, PublicKey: waTok.pubBytes(), AttestationType: "none"}}}
+		st.SaveUserProfile("wanda", wp)
+	}
+	st.Config.Base.AllowSelfServiceBootstrapOTP = true
+	st.Config.Email.Domain = "verif.test"
+	st.emailManager = c16Mailer{}
+	wsr := vNewRequest("GET", u2fSignRequestPath, nil)
+	w.applyCred(wsr, vCred{Kind: "cookie", Bits: AuthTypePassword}, "wanda")
+	var wsReq u2f.WebSignRequest
+	if json.Unmarshal(vServe(st.u2fSignRequest, wsr).Body, &wsReq) == nil && wsReq.Challenge != "" {
+		cw.waAssert, _ = json.Marshal(waTok.signResponse(wsReq.Challenge, u2fAppID))
+	}
 	// pending sign challenge + one assertion for it
 	signReq := vNewRequest("GET", u2fSignRequestPath, nil)
 	w.applyCred(signReq, vCred{Kind: "cookie", Bits: AuthTypePassword}, c16User)
@@ -162,10 +187,18 @@ func (cw *c16World) request(r c16Req) (*http.Request, http.HandlerFunc) {
 			req = vFormRequest("POST", totpAuthPath, url.Values{"OTP": {vTOTPCode(vTOTPSecretBob, time.Now())}})
 			user = "bob"
 		}
+	case "wa-manage":
+		req = vFormRequest("POST", u2fTokenManagementPath, url.Values{"username": {"wanda"}, "index": {"300"}, "action": {r.Arg}, "name": {"renamed-wa"}})
+		h = st.u2fTokenManagerHandler
+		user = "wanda"
 	case "u2f-sign-response":
 		req = vNewRequest("POST", u2fSignResponsePath, bytes.NewReader(cw.assertion))
 		h = st.u2fSignResponse
 		bits = AuthTypePassword
+		if r.Arg == "wanda" {
+			req = vNewRequest("POST", u2fSignResponsePath, bytes.NewReader(cw.waAssert))
+			user = "wanda"
+		}
 	case "bootstrap-auth":
 		otp := "carol-boot-otp"
 		if r.Arg == "wrong" {
@@ -198,6 +231,9 @@ func (cw *c16World) request(r c16Req) (*http.Request, http.HandlerFunc) {
 		user = "root-admin"
 	case "login":
 		req = vFormRequest("POST", "/api/v0/login", url.Values{"username": {c16User}, "password": {vPwAlice}})
+		if r.Arg == "wanda" {
+			req = vFormRequest("POST", "/api/v0/login", url.Values{"username": {"wanda"}, "password": {"wanda-pw"}})
+		}
 		h = st.loginHandler
 		return req, h
 	case "profile-view":
@@ -241,7 +277,7 @@ type c16Outcome struct {
 
 func c16Digest(w *vWorld) map[string]string {
 	out := map[string]string{}
-	for _, u := range []string{c16User, "carol", "newbie"} {
+	for _, u := range []string{c16User, "carol", "newbie", "wanda"} {
 		p, ok, _, _ := w.state.LoadUserProfile(u)
 		if !ok {
 			out[u] = "<none>"
@@ -253,6 +289,9 @@ func c16Digest(w *vWorld) map[string]string {
 		}
 		for k, d := range p.TOTPAuthData {
 			parts = append(parts, fmt.Sprintf("totp%d:%v:%s", k, d.Enabled, d.Name))
+		}
+		for k, d := range p.WebauthnData {
+			parts = append(parts, fmt.Sprintf("wa%d:%v:%s", k, d.Enabled, d.Name))
 		}
 		parts = append(parts, fmt.Sprintf("boot:%v", len(p.BootstrapOTP.Sha512Hash) > 0))
 		sort.Strings(parts)
@@ -375,8 +414,18 @@ func c16TokenKey(r c16Req) string {
 		return "u2f100"
 	case "totp-manage", "totp-manage-admin":
 		return "totp200"
+	case "wa-manage":
+		return "wa300"
 	}
 	return ""
+}
+
+// c16TokenUser: whose profile holds the token a management request acts on.
+func c16TokenUser(r c16Req) string {
+	if r.Kind == "wa-manage" {
+		return "wanda"
+	}
+	return c16User
 }
 
 func c16OneTimeKind(r c16Req) string {
@@ -423,7 +472,7 @@ func c16PairCheck(c c16PairCase) *vResult {
 				continue
 			}
 			undoneLegitimately := out.Acked[1-i] && c16TokenKey(o) == tokenKey && o.Arg == "Enable"
-			final := out.Final[c16User]
+			final := out.Final[c16TokenUser(r)]
 			stillThere := strings.Contains(final, tokenKey+":true")
 			if r.Arg == "Delete" {
 				stillThere = strings.Contains(final, tokenKey+":")
@@ -447,12 +496,16 @@ func c16PairCheck(c c16PairCase) *vResult {
 
 func TestVerifC16Schedules(t *testing.T) {
 	vRunRapid(t,
-		"rapid draws a pair of requests on the same user from 27 request kinds (token management Disable/Delete/Enable/Update for U2F and TOTP, registration begin/finish, TOTP generate, TOTP / U2F / bootstrap-OTP authentication, webauthn begin, admin bootstrap OTP, login, profile view); for each pair ALL interleavings of the two requests' storage operations (profile load = query, profile write = begin) are enumerated under a scheduler that parks each operation in a wrapping SQL driver (count in coverage.per_test.extra.schedules_run); every case counts; distinct = the pair",
+		"rapid draws a pair of requests on the same user from 32 request kinds (token management Disable/Delete/Enable/Update for U2F and TOTP, registration begin/finish, TOTP generate, TOTP / U2F / bootstrap-OTP authentication, webauthn begin, admin bootstrap OTP, login, profile view); for each pair ALL interleavings of the two requests' storage operations (profile load = query, profile write = begin) are enumerated under a scheduler that parks each operation in a wrapping SQL driver (count in coverage.per_test.extra.schedules_run); every case counts; distinct = the pair",
 		func(t *rapid.T) c16PairCase {
 			a := rapid.SampledFrom(c16Kinds).Draw(t, "a")
 			b := rapid.SampledFrom(c16Kinds).Draw(t, "b")
 			// the clauses are about a Disable/Delete meeting any writer, or the same one-time value twice
-			switch rapid.IntRange(0, 4).Draw(t, "shape") {
+			switch rapid.IntRange(0, 5).Draw(t, "shape") {
+			case 3:
+				// wanda's Disable / Delete meets one of her other requests
+				a = rapid.SampledFrom([]c16Req{{"wa-manage", "Disable"}, {"wa-manage", "Delete"}}).Draw(t, "a4")
+				b = rapid.SampledFrom([]c16Req{{"login", "wanda"}, {"login", "wanda"}, {"wa-manage", "Update"}, {"u2f-sign-response", "wanda"}}).Draw(t, "b4")
 			case 0:
 				a = rapid.SampledFrom(c16Kinds[:7]).Draw(t, "a2")
 			case 1:
@@ -709,8 +762,8 @@ func c16TripleCheck(c c16TripleCase) *vResult {
 		res.NonTrivial = false
 		return res
 	}
-	final := out.Final[c16User]
 	for i, r := range c.Reqs {
+		final := out.Final[c16TokenUser(r)]
 		tokenKey := c16TokenKey(r)
 		if !out.Acked[i] || tokenKey == "" || (r.Arg != "Disable" && r.Arg != "Delete") {
 			continue
@@ -747,7 +800,7 @@ func c16TripleCheck(c c16TripleCase) *vResult {
 
 func TestVerifC16Triples(t *testing.T) {
 	vRunRapid(t,
-		"rapid draws three requests (the same one-time value twice behind a third request of that user / a Disable or Delete among two other writers / any three of the 27 kinds) and a schedule over request indices in which the first occurrence of an index STARTS the request (late arrivals while others are inside their critical section or blocked behind it) and later occurrences let it perform its next storage operation, under the parking SQL driver; oracle: acknowledged Disable/Delete survives, one-time value honoured at most once; non-trivial = the run completed; distinct = (requests, schedule)",
+		"rapid draws three requests (the same one-time value twice behind a third request of that user / a Disable or Delete among two other writers / any three of the 32 kinds) and a schedule over request indices in which the first occurrence of an index STARTS the request (late arrivals while others are inside their critical section or blocked behind it) and later occurrences let it perform its next storage operation, under the parking SQL driver; oracle: acknowledged Disable/Delete survives, one-time value honoured at most once; non-trivial = the run completed; distinct = (requests, schedule)",
 		c16TripleGen, c16TripleCheck)
 }
 
@@ -800,7 +853,7 @@ func c16RaceCheck(c c16RaceCase) *vResult {
 
 func TestVerifC16Race(t *testing.T) {
 	vRunRapid(t,
-		"rapid (binary built with -race): 2-4 requests from the 27 kinds plus the readiness probe and the pending-table cleaner on real goroutines released together; the driver turns race-detector reports whose stacks contain keymaster frames into violations; every case counts; distinct = the request multiset",
+		"rapid (binary built with -race): 2-4 requests from the 32 kinds plus the readiness probe and the pending-table cleaner on real goroutines released together; the driver turns race-detector reports whose stacks contain keymaster frames into violations; every case counts; distinct = the request multiset",
 		func(t *rapid.T) c16RaceCase {
 			// requests that share one in-memory table are worth meeting each other
 			groups := [][]c16Req{
@@ -809,6 +862,7 @@ func TestVerifC16Race(t *testing.T) {
 				{{"vip-push-start", "bob"}, {"vip-push-start", "alice"}, {"login", ""}},
 				{{"totp-auth", ""}, {"totp-auth", ""}, {"totp-generate", ""}},
 				{{"totp-auth", ""}, {"totp-auth", "bob"}, {"totp-auth", "bob"}, {"bootstrap-auth", ""}},
+				{{"u2f-sign-response", "wanda"}, {"u2f-sign-request", "bob"}, {"u2f-sign-request", "alice"}, {"u2f-sign-request", "bob"}},
 			}
 			if rapid.Bool().Draw(t, "grouped") {
 				g := rapid.SampledFrom(groups).Draw(t, "group")
